@@ -24,7 +24,14 @@ def run_check(prop, root=None, tier="quick", seed=0):
     mod = importlib.import_module("checks.%s" % prop.lower())
     repo = Repo(root)
     ctx = Ctx(prop, repo, tier, seed)
-    mod.run(ctx)
+    try:
+        mod.run(ctx)
+    except AnalysisError as e:
+        # keep what was established before the checker had to give up: an
+        # unlisted violation found so far is still a violation (exit 1)
+        if not ctx.violations:
+            raise
+        ctx.partial = str(e)
     return ctx
 
 
@@ -82,6 +89,10 @@ def main(argv):
         print("%s: %d rule instance(s) over %d rule(s), %d abstract case(s), %d violation(s) (%d known), tier=%s, %.2fs" % (
             prop, sum(ctx.count(r) for r in ctx.rules), len(ctx.rules), ctx.abstract_cases,
             len(ctx.violations), len(known_hits), tier, time.time() - t0))
+        if getattr(ctx, "partial", None):
+            print("ANALYSIS-ERROR (partial) property=%s %s" % (prop, ctx.partial))
+            if not unlisted:
+                return 2
         if unlisted:
             for n, o in enumerate(unlisted):
                 p = write_replay(ctx, o, n)
